@@ -320,7 +320,7 @@ func Compose(u *Universe, rng *rand.Rand, colsPerTable int, firstID int) []*Mode
 				i++
 			}
 			// the same jsonb column (name and type) in every table: each needs its own validator CHECK
-			tb.Fields = append(tb.Fields, plain("Shared", ref("Flags")))
+			tb.Fields = append(tb.Fields, plain("Shared", ref("Flags")), plain("SharedToo", ref("Flags")))
 			// an unexported field never is a column
 			tb.Fields = append(tb.Fields, Field{Name: "hidden", Exported: false, TE: basic("string"), Guard: noGuard})
 			m.Tables = append(m.Tables, tb)
@@ -453,6 +453,7 @@ func ComposeCrud(u *Universe, rng *rand.Rand, firstID int) []*Model {
 			{Name: "IdOther", Exported: true, TE: ref("IdOther"), Guard: noGuard, OnDelete: "CASCADE"},
 			{Name: "Par", Exported: true, TE: ref("ParentId"), Guard: noGuard},
 			plain("Weight", basic("float64")),
+			plain("Labels", ref("Flags")), // a jsonb map: every scanned row must get its own value
 		}}
 		if rng.Intn(2) == 0 {
 			link.Fields = append(link.Fields, Field{Name: "Opt", Exported: true, TE: ref("OptId"), Guard: noGuard, Foreign: "Other", OnDelete: "SET NULL"})
